@@ -182,7 +182,7 @@ def execute_step(sc) -> Result:
     try:
         account_run(res, run, sc)
         res.history_key = "|".join(map(str, ("step", scheme, sc["flow"]["kind"], sc["grid"].get("metric"),
-                                             truth.dt_s(sc)))) + "|" + abstract_history(run)
+                                             truth.dt_s(sc)))) + "|" + abstract_history(run, sc)
         v, foreign = crash_violation(ID, run, ANCHORS)
         if v is not None:
             res.add(v)
